@@ -353,3 +353,38 @@ pub open spec fn held_for(c: DnsCache, name: Seq<char>, qtype: RRType) -> Seq<Dn
     if qtype == RRType::PTR { list_in(c.ptr@, name) } else if qtype == RRType::SRV { list_in(c.srv@, name) } else if qtype == RRType::TXT { list_in(c.txt@, name) }
     else if qtype == RRType::A || qtype == RRType::AAAA { list_in(c.addr@, lower(name)) } else { Seq::empty() }
 }
+
+// ---- service_verify_queries ----
+impl DnsRecordDyn {
+    // the SRV view of a boxed record: its target host
+    #[verifier::external_body]
+    pub fn as_srv_host(&self) -> (r: Option<&DnsSrv>)
+        ensures r is Some <==> payload_srv_host(self.payload()) is Some, r is Some ==> r->Some_0.host@ == payload_srv_host(self.payload())->Some_0,
+    { unimplemented!() }
+}
+pub uninterp spec fn payload_srv_host(p: int) -> Option<Seq<char>>;
+
+// a record after `set_expire_sooner(t)` (unit lifetime: expires = min(expires, t), nothing else touched) when a deadline is given
+pub open spec fn sooner(a: DnsRecordIntf, b: DnsRecordIntf, t: Option<u64>) -> bool {
+    b.src_intf == a.src_intf && b.record.payload() == a.record.payload()
+    && b.record.rec() == (DnsRecord { expires: (if t is Some && t->Some_0 < a.record.rec().expires { t->Some_0 } else { a.record.rec().expires }), ..a.record.rec() })
+}
+// every list of the map as it was, except that records may have been given the deadline
+pub open spec fn some_sooner(m: Map<String, Vec<DnsRecordIntf>>, m0: Map<String, Vec<DnsRecordIntf>>, t: Option<u64>) -> bool {
+    m.dom() == m0.dom() && forall|k: String| #[trigger] m.contains_key(k) ==> m[k]@.len() == m0[k]@.len() && forall|i: int| 0 <= i < m0[k]@.len() ==> (#[trigger] m[k]@[i] == m0[k]@[i] || sooner(m0[k]@[i], m[k]@[i], t))
+}
+// the hosts targeted by the first n SRV records have all their address records on the deadline (host name looked up as spelled)
+pub open spec fn hosts_sooner(m: Map<String, Vec<DnsRecordIntf>>, m0: Map<String, Vec<DnsRecordIntf>>, l: Seq<DnsRecordIntf>, n: int, t: Option<u64>) -> bool {
+    forall|j: int, i: int| 0 <= j < n && payload_srv_host((#[trigger] l[j]).record.payload()) is Some && m_has(m0, payload_srv_host(l[j].record.payload())->Some_0)
+        && 0 <= i < m0[key_string(payload_srv_host(l[j].record.payload())->Some_0)]@.len()
+        ==> sooner(#[trigger] m0[key_string(payload_srv_host(l[j].record.payload())->Some_0)]@[i], m[key_string(payload_srv_host(l[j].record.payload())->Some_0)]@[i], t)
+}
+// the questions: SRV for the instance, then A and AAAA for the target of each of its SRV records
+pub open spec fn verify_questions(inst: Seq<char>, l: Seq<DnsRecordIntf>, n: int) -> Seq<(Seq<char>, RRType)>
+    decreases n,
+{
+    if n <= 0 { seq![(inst, RRType::SRV)] }
+    else if payload_srv_host(l[n - 1].record.payload()) is Some { verify_questions(inst, l, n - 1).push((payload_srv_host(l[n - 1].record.payload())->Some_0, RRType::A)).push((payload_srv_host(l[n - 1].record.payload())->Some_0, RRType::AAAA)) }
+    else { verify_questions(inst, l, n - 1) }
+}
+pub open spec fn q_view(v: Seq<(String, RRType)>) -> Seq<(Seq<char>, RRType)> { v.map_values(|q: (String, RRType)| (q.0@, q.1)) }
